@@ -203,6 +203,20 @@ fn forms() -> Vec<Form> {
                     build: Box::new(move |o| bin(op1, o[0].clone(), Expr::Paren(Box::new(bin(op2, o[1].clone(), o[2].clone()))))),
                     show: Box::new(show_b),
                 });
+                // the same trees written with the fewest parentheses the documented precedence allows
+                // (`a || b && c` is `a || (b && c)`, `a && b || c` is `(a && b) || c`)
+                fs.push(Form {
+                    name: format!("logic-right-nested-bare{}{}{}{}{}", op1.src(), op2.src(), a, b, c),
+                    ops: vec![(Kind::B, Expr::Bool(a)), (Kind::B, Expr::Bool(b)), (Kind::B, Expr::Bool(c))],
+                    build: Box::new(move |o| bin(op1, o[0].clone(), bin(op2, o[1].clone(), o[2].clone()))),
+                    show: Box::new(show_b),
+                });
+                fs.push(Form {
+                    name: format!("logic-left-nested-bare{}{}{}{}{}", op1.src(), op2.src(), a, b, c),
+                    ops: vec![(Kind::B, Expr::Bool(a)), (Kind::B, Expr::Bool(b)), (Kind::B, Expr::Bool(c))],
+                    build: Box::new(move |o| bin(op2, bin(op1, o[0].clone(), o[1].clone()), o[2].clone())),
+                    show: Box::new(show_b),
+                });
                 if bits % 2 == 0 {
                     fs.push(Form {
                         name: format!("logic-left-nested{}{}{}{}{}", op1.src(), op2.src(), a, b, c),
